@@ -125,14 +125,14 @@ func determinismMem(r *Run) {
 		// times that size): whatever Create does about it - refuse, or
 		// choose a larger slice size - it must do the same for every order
 		// and spelling of the same inputs
-		w.S = 4
 		k := 1 + t.Draw(2, "doublings")
-		s2 := w.S << uint(k)
+		s2 := 4 << uint(k)
 		others := 0
 		for _, f := range w.Files[1:] {
 			others += (len(f.Data) + s2 - 1) / s2
 		}
 		if others < 2000 {
+			w.S = 4
 			want := 32768 - others - t.Draw(len(w.Files)+2, "margin")
 			data := expandContent(ckRandom, t.Draw64(0, "limit-seed"), want*s2-t.Draw(s2, "limit-tail"), 64)
 			w.Files[0].Data = data
